@@ -82,6 +82,109 @@ var anyC = codec[any]{"any",
 		return a.(int)
 	}}
 
+// ---- value types that are NOT comparable with == (a map must store and return them like any other value; only
+// CompareAndSwap / CompareAndDelete are documented to require comparable values) ----
+type sbox struct {
+	tag string
+	s   []int
+}
+
+var sliceC = codec[[]int]{"[]int",
+	func(i int) []int {
+		if i == 0 {
+			return nil
+		}
+		return []int{i}
+	},
+	func(s []int) int {
+		if len(s) == 0 {
+			return 0
+		}
+		return s[0]
+	}}
+var mapC = codec[map[string]int]{"map[string]int",
+	func(i int) map[string]int {
+		if i == 0 {
+			return nil
+		}
+		return map[string]int{"v": i}
+	},
+	func(m map[string]int) int { return m["v"] }}
+var boxC = codec[sbox]{"struct{[]int}",
+	func(i int) sbox {
+		if i == 0 {
+			return sbox{}
+		}
+		return sbox{"b", []int{i}}
+	},
+	func(b sbox) int {
+		if len(b.s) == 0 {
+			return 0
+		}
+		return b.s[0]
+	}}
+var funcC = codec[func() int]{"func() int",
+	func(i int) func() int {
+		if i == 0 {
+			return nil
+		}
+		return func() int { return i }
+	},
+	func(f func() int) int {
+		if f == nil {
+			return 0
+		}
+		return f()
+	}}
+
+// interface type holding uncomparable dynamic values: 0 is the nil interface, odd codes are slices, even codes maps
+var anyUncC = codec[any]{"any(holding []int / map[string]int)",
+	func(i int) any {
+		switch {
+		case i == 0:
+			return nil
+		case i%2 == 1:
+			return []int{i}
+		}
+		return map[string]int{"v": i}
+	},
+	func(a any) int {
+		switch x := a.(type) {
+		case nil:
+			return 0
+		case []int:
+			return x[0]
+		case map[string]int:
+			return x["v"]
+		}
+		return -999
+	}}
+
+// interface-typed KEY holding comparable dynamic values of different types: 0 nil, odd ints, even strings
+var anyMixKeyC = codec[any]{"any(holding int / string)",
+	func(i int) any {
+		switch {
+		case i == 0:
+			return nil
+		case i%2 == 1:
+			return i
+		}
+		return fmt.Sprintf("s%d", i)
+	},
+	func(a any) int {
+		switch x := a.(type) {
+		case nil:
+			return 0
+		case int:
+			return x
+		case string:
+			var i int
+			fmt.Sscanf(x, "s%d", &i)
+			return i
+		}
+		return -999
+	}}
+
 const freshKey = 399 // a key code no generated sequence uses (alias checks insert and remove it)
 const freshVal = 398
 
@@ -535,11 +638,12 @@ func nest(cons, nilc string, parts []string) string {
 }
 
 type gen struct {
-	w            *cw.Writer
-	rng          *rand.Rand
-	typeDisagree int
-	refDisagree  int
-	seen         map[string]bool
+	w                *cw.Writer
+	rng              *rand.Rand
+	typeDisagree     int
+	uncomparableSeqs int // sequences run at the uncomparable value types
+	refDisagree      int
+	seen             map[string]bool
 }
 
 var mutating = map[string]bool{"GetOrAdd": true, "Set": true, "Delete": true, "Clear": true, "ClearAndResize": true,
@@ -629,6 +733,61 @@ func sameObs(ops []op, a, b []obs) bool {
 
 // seq runs one operation sequence at all four instantiations; when they agree ONE case is emitted (types "all"),
 // otherwise one case per instantiation, so that the failing type is identified by Coq's verdicts.
+// needsComparable: CompareAndSwap / CompareAndDelete are documented to require comparable values ("the old value must
+// be of a comparable type"): sequences containing them are run at the uncomparable value types with these two
+// operations left out
+func needsComparable(ops []op) bool {
+	for _, o := range ops {
+		if o.Kind == "CompareAndSwap" || o.Kind == "CompareAndDelete" {
+			return true
+		}
+	}
+	return false
+}
+
+// uncomparableRuns: the sequence at value types that cannot be compared with == (slice, map, struct holding a slice,
+// func, and an interface type holding slices/maps), and at an interface key type holding values of mixed dynamic types
+func uncomparableRuns(obj string, ops []op) []run {
+	if obj == "SafeMap" {
+		a, ra := runSafe(intC, sliceC, ops)
+		b, rb := runSafe(strC, funcC, ops)
+		c, rc := runSafe(anyMixKeyC, anyUncC, ops)
+		return []run{{"int,[]int", false, a, ra}, {"string,func() int", false, b, rb}, {"any(int|string),any([]int|map)", true, c, rc}}
+	}
+	a, ra := runSync(intC, sliceC, ops)
+	b, rb := runSync(strC, mapC, ops)
+	c, rc := runSync(ptrC, boxC, ops)
+	d, rd := runSync(intC, funcC, ops)
+	e, re := runSync(intC, anyUncC, ops)
+	f, rf := runSync(anyMixKeyC, anyUncC, ops)
+	return []run{{"int,[]int", false, a, ra}, {"string,map[string]int", false, b, rb}, {"*T,struct{[]int}", false, c, rc},
+		{"int,func() int", false, d, rd}, {"int,any([]int|map)", true, e, re}, {"any(int|string),any([]int|map)", true, f, rf}}
+}
+
+func (g *gen) emitRuns(obj, stream string, ops []op, runs []run, allLabel string) {
+	agree := true
+	for _, r := range runs {
+		if !sameObs(ops, r.out, runs[0].out) || !r.refOK {
+			agree = false
+		}
+	}
+	if agree {
+		r := runs[len(runs)-1]
+		r.types = allLabel
+		g.emit(obj, stream, ops, r)
+		return
+	}
+	g.typeDisagree++
+	for _, r := range runs {
+		if !r.refOK {
+			g.refDisagree++
+		}
+		g.emit(obj, stream, ops, r)
+	}
+}
+
+// seq runs one operation sequence at all instantiations; when they agree ONE case is emitted (types "all"),
+// otherwise one case per instantiation, so that the failing type is identified by Coq's verdicts.
 func (g *gen) seq(obj, stream string, ops []op) {
 	k := obj + fmt.Sprint(ops)
 	if g.seen[k] {
@@ -651,25 +810,26 @@ func (g *gen) seq(obj, stream string, ops []op) {
 		runs = []run{{"int,int", false, a, ra}, {"string,string", false, b, rb}, {"*T,*T", false, c, rc},
 			{"any,any", true, d, rd}, {"int,any", true, e, re}}
 	}
-	agree := true
-	for _, r := range runs {
-		if !sameObs(ops, r.out, runs[0].out) || !r.refOK {
-			agree = false
-		}
-	}
-	if agree {
-		r := runs[len(runs)-1]
-		r.types = "all"
-		g.emit(obj, stream, ops, r)
+	if !needsComparable(ops) {
+		g.uncomparableSeqs++
+		g.emitRuns(obj, stream, ops, append(runs, uncomparableRuns(obj, ops)...), "all")
 		return
 	}
-	g.typeDisagree++
-	for _, r := range runs {
-		if !r.refOK {
-			g.refDisagree++
+	g.emitRuns(obj, stream, ops, runs, "all comparable")
+	// the same sequence without CompareAndSwap/CompareAndDelete at the uncomparable value types
+	var rest []op
+	for _, o := range ops {
+		if o.Kind != "CompareAndSwap" && o.Kind != "CompareAndDelete" {
+			rest = append(rest, o)
 		}
-		g.emit(obj, stream, ops, r)
 	}
+	k2 := obj + "/unc" + fmt.Sprint(rest)
+	if len(rest) == 0 || g.seen[k2] || g.seen[obj+fmt.Sprint(rest)] {
+		return
+	}
+	g.seen[k2] = true
+	g.uncomparableSeqs++
+	g.emitRuns(obj, stream+"-uncomparable", rest, uncomparableRuns(obj, rest), "all uncomparable")
 }
 
 func safeAlphabet(keys, vals []int) []op {
@@ -876,7 +1036,8 @@ func main() {
 		len(nilW)+2, exDesc, nSafeEx, nSyncEx, nRandom, 5+maxLen)
 	g.w.Extra["sequences_with_type_disagreement"] = g.typeDisagree
 	g.w.Extra["instantiation_runs_where_plain_go_map_differs"] = g.refDisagree
-	g.w.Extra["instantiations"] = "SafeMap: int/int, string/string, *T/*T, any/any; SyncMap: the same plus int/any"
+	g.w.Extra["sequences_run_at_uncomparable_value_types"] = g.uncomparableSeqs
+	g.w.Extra["instantiations"] = "comparable: SafeMap int/int, string/string, *T/*T, any/any; SyncMap the same plus int/any. NOT comparable with == (every sequence; CompareAndSwap/CompareAndDelete left out, they are documented to need comparable values): SafeMap int/[]int, string/func() int, any(int|string)/any([]int|map); SyncMap int/[]int, string/map[string]int, *T/struct{[]int}, int/func() int, int/any([]int|map), any(int|string)/any([]int|map)"
 	if err := g.w.Flush(); err != nil {
 		fmt.Fprintln(os.Stderr, err)
 		os.Exit(1)
